@@ -178,7 +178,12 @@ class RemoveImportsTransformer(CSTTransformer):
             module_name = name.evaluated_name
             found = False
             for import_item in self.import_items_to_be_removed:
-                if import_item.module_name == module_name:
+                # `import x` binds the module itself: only a moved `import x`
+                # matches it, never a moved `from x import y`
+                if (
+                    import_item.module_name == module_name
+                    and import_item.obj_name is None
+                ):
                     found = True
                     break
             if not found:
